@@ -59,3 +59,47 @@ pub const CHECKS: &[(&str, CheckFn)] = &[
     ("C19", c19_buffer::run),
     ("C20", c20_net::run),
 ];
+
+/// Fuzz targets and raw replays: (target name, property, oracle over plain bytes).
+pub const FUZZ_TARGETS: &[(&str, &str, fn(&[u8]) -> Result<(), String>)] = &[
+    ("packet6", "C06", |d| c06_reader_total::check_bytes(d, false).map(|_| ())),
+    ("packet7", "C06", |d| c06_reader_total::check_bytes(d, true).map(|_| ())),
+    ("huffman_decode", "C07", |d| {
+        if d.len() < 2 {
+            return Ok(());
+        }
+        let cap = u16::from_le_bytes([d[0], d[1]]) as usize % 4096;
+        c07_huffman::check_decode(&d[2..], cap).map(|_| ())?;
+        c07_huffman::check_decode_vec(&d[2..]).map(|_| ())
+    }),
+    ("huffman_compress", "C07", |d| c07_huffman::check_compress(d).map(|_| ())),
+    ("snap_read", "C11", |d| {
+        let k = c11_snap_total::Known::from_keys(&["create-size-mismatch"]);
+        c11_snap_total::oracle_snap_bytes(&k, d, true).map(|_| ())
+    }),
+    ("delta_apply", "C11", |d| {
+        // first byte: length (in varints) of the base snapshot part; rest: base snapshot bytes ++ delta bytes
+        if d.is_empty() {
+            return Ok(());
+        }
+        let k = c11_snap_total::Known::from_keys(&["create-size-mismatch"]);
+        let split = (d[0] as usize * (d.len() - 1)) / 255;
+        let (base, delta) = d[1..].split_at(split.min(d.len() - 1));
+        let (base_ints, _) = c11_snap_total::decode_varints(base);
+        c11_snap_total::oracle_delta_bytes(&k, c11_snap_total::Table::V06, delta, &base_ints, true).map(|_| ())
+    }),
+    ("gamenet", "C14", c14_gamenet::fuzz_bytes),
+    ("datafile", "C16", c16_datafile::check_bytes),
+    ("teehistorian", "C17", c17_teehistorian::fuzz_bytes),
+    ("serverbrowse", "C18", c18_serverbrowse::check_datagram),
+];
+
+pub fn fuzz_entry(target: &str, data: &[u8]) -> Result<(), String> {
+    match FUZZ_TARGETS.iter().find(|t| t.0 == target) {
+        Some(t) => match guard(|| (t.2)(data)) {
+            Ok(r) => r,
+            Err(p) => Err(format!("unexpected {}", p)),
+        },
+        None => Err(format!("unknown fuzz target {}", target)),
+    }
+}
